@@ -133,7 +133,8 @@ fn main() {
     let quiet       = args.iter().any(|a| a == "--quiet");
 
     // Silence panic messages of scenario panics (they are data)
-    if quiet { std::panic::set_hook(Box::new(|_| { })); }
+    if quiet { std::panic::set_hook(Box::new(|_| { runtime::note_panic(); })); }
+    else { let default = std::panic::take_hook(); std::panic::set_hook(Box::new(move |info| { runtime::note_panic(); default(info); })); }
 
     let sched: &'static Sched = Box::leak(Box::new(Sched::new()));
     desync::verif::install(Box::new(sched));
